@@ -17,7 +17,7 @@ std::string g_dir;
 
 // ------------------------------------------------------------------ mock compressor / encoder faults
 
-struct MockPlan { int fail_ctor = 0; long fail_write = -1; bool fail_close = false; };
+struct MockPlan { int fail_ctor = 0; long fail_write = -1; bool fail_close = false; int slow_us = 0; };
 MockPlan g_mock;
 std::atomic<long> g_mock_writes{0};
 struct InjectedFault : public std::runtime_error { using std::runtime_error::runtime_error; };
@@ -31,6 +31,7 @@ public:
     ~MockCompressor() noexcept override { try { if (m_fd >= 0) ::close(m_fd); } catch (...) {} }
     void write(const std::string& data) override {
         const long n = ++g_mock_writes;
+        if (g_mock.slow_us) std::this_thread::sleep_for(std::chrono::microseconds(g_mock.slow_us));   // slow output: the queue fills up
         if (g_mock.fail_write > 0 && n == g_mock.fail_write) throw InjectedFault{"injected compressor write fault"};
         ssize_t w = ::write(m_fd, data.data(), data.size()); (void)w;
     }
@@ -56,7 +57,9 @@ void case_mock(uint64_t idx, vh::Rng& rng) {
     g_mock_writes = 0;
     std::vector<mdl::Obj> D = make_data(rng, c, 30 + rng.below(100));
     if (kind == 0) g_mock.fail_ctor = 1;
-    if (kind == 1) g_mock.fail_write = 1 + static_cast<long>(rng.below(6));
+    if (kind == 1) g_mock.fail_write = 1 + static_cast<long>(rng.below(rng.coin() ? 6 : 30));
+    if (rng.coin()) g_mock.slow_us = 2000;
+    buffers_per_file() = rng.coin() ? 5 : 40;
     if (kind == 2) g_mock.fail_close = true;
     if (kind == 3) D[rng.below(D.size())].tags.push_back(mdl::Tag{"k", std::string("bad\xff\xfe", 5)});
     ::setenv("OSMIUM_MAX_OUTPUT_QUEUE_SIZE", rng.coin() ? "2" : "20", 1);
